@@ -406,4 +406,4 @@ var clusterProp = pbt.Prop[Plan]{ID: "C01", Name: "cluster", Gen: genPlan, Run: 
 
 func TestProp_cluster(t *testing.T) { clusterProp.Check(t) }
 
-func TestReplay(t *testing.T) { pbt.Replay(t, clusterProp) }
+func TestReplay(t *testing.T) { pbt.Replay(t, clusterProp, sqlClusterProp) }
